@@ -13,7 +13,7 @@ import iolib, gens
 from iolib import RunDir, run_cli, sig, shim_env, read_trace, le32
 from vlib import Oracle, hx, md5
 
-THEOREMS = ["C14_exit0_sound", "C14_rm_order", "C14_rm_order_compress", "C14_multi_exit0", "C14_truncation", "C14_truncation_exit"]
+THEOREMS = ["C14_exit0_sound", "C14_rm_order", "C14_rm_order_compress", "C14_multi_exit0", "C14_truncation", "C14_truncation_exit", "C14_pipe_no_exception"]
 CORRESPONDENCE = ["Io.decompress (ST model) == lz4 -d/-t of the ST build under the same input, seekable flag and I/O fault: exit status class, output on exit 0, source removal",
                   "Io.decompress (MT model) == lz4 -d/-t of the MT build (same observables)",
                   "Io.compress tail model == lz4 compression (frame ST/MT, legacy) under the same I/O fault: exit status class, source removal"]
@@ -45,13 +45,14 @@ def gen_cases(tier, seed):
     # fixed corpus: regressions of the repaired defects F2, F3, F8, F9, F11 (must be VIOLATIONs again if a fix is reverted)
     for k in ["reg_f2", "reg_f3", "reg_f8", "reg_f9", "reg_f11"]:
         cases.append({"kind": k, "sseed": 77})
-    n = {"quick": 1, "search": 3, "thorough": 6}[tier]
-    budget = {"quick": 50, "search": 150, "thorough": 0}[tier]       # mutants per case (0 = all)
+    n = {"quick": 1, "search": 3, "thorough": 3}[tier]
+    budget = {"quick": 50, "search": 150, "thorough": 0}[tier]       # truncation points per case (0 = all)
+    fbudget = {"quick": 50, "search": 150, "thorough": 500}[tier]    # bit flips per case
     shapes = ["LG", "GL", "SL", "LS", "GS", "LL", "GG", "LGS", "SGL", "GLS", "LSL", "GSG"]
     for i in range(n * len(shapes)):
         kinds = shapes[i % len(shapes)]
         cases.append({"kind": "trunc", "kinds": kinds, "sseed": rng.randrange(1 << 48), "budget": budget})
-        cases.append({"kind": "flip", "kinds": kinds, "sseed": rng.randrange(1 << 48), "budget": budget})
+        cases.append({"kind": "flip", "kinds": kinds, "sseed": rng.randrange(1 << 48), "budget": fbudget})
     for i in range({"quick": 6, "search": 12, "thorough": 40}[tier]):
         cases.append({"kind": "garbage", "kinds": rng.choice(shapes + ["L", "G", "S"]), "sseed": rng.randrange(1 << 48)})
     for i in range({"quick": 6, "search": 8, "thorough": 30}[tier]):
@@ -309,6 +310,13 @@ def case_rm_multi(acc, st, case, rng):
             sp = iolib.spec_stream(st["spec"], data) if how != "missing" else None
             exists = os.path.exists(rd.f(name))
             got = rd.read(name[:-4])
+            if how != "missing" and sp is None:
+                _, overrun = walk_kinds(data)
+                if overrun is not None:          # input ends inside the user data of a skippable frame: unspecified on files
+                    sp2 = iolib.spec_stream(st["spec"], data[:overrun])
+                    if sp2 is not None and got is not None and sig(got) == sp2:
+                        acc.stats["unspecified_skippable_overrun_seekable"] += 1
+                        continue
             ok = sp is not None and got is not None and sig(got) == sp
             acc.stats["multi_" + how] += 1
             if how != "missing" and not exists and not ok:
@@ -358,10 +366,10 @@ def case_fault(acc, st, case, rng):
         tr = read_trace(log)
         acc.evals += 1
         if rc0 != 0:
-            if build == "MT" and op.startswith("dec") or op == "test":
-                if iolib.legacy_after_lz4(case["kinds"]) and build == "MT":
-                    acc.stats["fault_skipped_f4"] += 1
-                    continue
+            kk = case["kinds"] * (2 if op == "dec_multi" else 1)      # dec_multi also decodes the stream concatenated with itself
+            if build == "MT" and (op.startswith("dec") or op == "test") and iolib.legacy_after_lz4(kk):
+                acc.stats["fault_skipped_f4"] += 1                    # finding F4 of C15: the MT build rejects this valid stream
+                continue
             acc.fail("prop_fail", "%s %s: fault-free run exits %d" % (build, op, rc0), build=build, op=op, rc=rc0, stderr=err0[-300:],
                      legacy_after_lz4=iolib.legacy_after_lz4(case.get("kinds", "")))
             continue
